@@ -41,6 +41,6 @@ LEVEL_TEXT = ("CrossHair executes the real Chart.from_file with recording sectio
 LEVEL_NOTE = "Selections are generated from per-section membership bits plus None/[] (the routing code only asks membership of the section's own pair). Trusted: S1, S5, S6."
 TECHNIQUE = CH_TECH
 EXPLANATION = "see obligation_table"
-BOUNDS = "<=2 instrument sections per file drawn from 40 track names + 8 unknown names"
+BOUNDS = "<=2 instrument sections per file drawn from 40 track names + 8 unknown names (3-4 in route_multi, bodies different / identical / empty); two parses in a row"
 OUTSIDE = "more than 2 instrument sections at once (sections are handled independently in a loop)"
 ASSUMPTIONS = [S1, S5, S6]
